@@ -99,7 +99,7 @@ pub fn make_style(template: &str, obs: &Arc<StdMutex<ObsShared>>, obs_text: &str
     let mut rest = template;
     while let Some(i) = rest.find(|c| c == '{' || c == '}') {
         let tail = &rest[i..];
-        if let Some(k) = ["{ ", "{\t", "{\n"].iter().find(|k| tail.starts_with(**k)) {
+        if let Some(k) = ["{{", "}}", "{ ", "{\t", "{\n"].iter().find(|k| tail.starts_with(**k)) {
             rest = &tail[k.len()..];
             continue;
         }
